@@ -10,10 +10,16 @@ import (
 	"golang.org/x/tools/go/ssa"
 )
 
+type uniqFact struct {
+	t *Term
+	v uint64
+}
+
 type decision struct {
 	kind     byte // 'b' branch, 'p' pick, 'c' choose
 	val      uint64
 	excluded []uint64
+	uniq     []uniqFact // unique-value facts learned right after this decision (replayed verbatim)
 }
 
 type inputRec struct {
@@ -124,6 +130,7 @@ type Exec struct {
 	forced      map[string]int
 	forcedEx    map[string]string
 	curSite     string
+	pendingUniq []uniqFact
 	initPhase   bool
 	stack       []*ssa.Function
 	pcVars      []*Term
@@ -525,6 +532,9 @@ func (e *Exec) branch(c *Term) bool {
 		} else {
 			e.pushAssert(Not(c))
 		}
+		for _, u := range d.uniq {
+			e.applyUniq(u)
+		}
 		return d.val != 0
 	}
 	var ft, ff string
@@ -577,12 +587,17 @@ func (e *Exec) branch(c *Term) bool {
 	if take {
 		v = 1
 	}
-	e.trace = append(e.trace, decision{kind: 'b', val: v})
+	pend := e.pendingUniq
+	e.pendingUniq = nil
+	e.trace = append(e.trace, decision{kind: 'b', val: v, uniq: pend})
 	e.pos++
 	if take {
 		e.pushAssert(c)
 	} else {
 		e.pushAssert(Not(c))
+	}
+	for _, u := range pend {
+		e.applyUniq(u)
 	}
 	return take
 }
@@ -635,15 +650,7 @@ func (e *Exec) noteForced(c *Term) {
 			}
 			if e.s.CheckWith(Not(Eq(v, BV64orBool(v.W, mv)))) == "unsat" {
 				e.Uniq++
-				if v.W == 0 {
-					if mv != 0 {
-						e.learn(v)
-					} else {
-						e.learn(Not(v))
-					}
-				} else {
-					e.learnEq(v, mv)
-				}
+				e.pendingUniq = append(e.pendingUniq, uniqFact{v, mv})
 			}
 		}
 	}
@@ -657,6 +664,18 @@ func (e *Exec) noteForced(c *Term) {
 	e.forced[e.curSite]++
 	if _, ok := e.forcedEx[e.curSite]; !ok {
 		e.forcedEx[e.curSite] = c.str(5)
+	}
+}
+
+func (e *Exec) applyUniq(u uniqFact) {
+	if u.t.W == 0 {
+		if u.v != 0 {
+			e.learn(u.t)
+		} else {
+			e.learn(Not(u.t))
+		}
+	} else {
+		e.learnEq(u.t, u.v)
 	}
 }
 
@@ -1022,6 +1041,7 @@ func (e *Exec) resetPath() {
 		e.unwind = 100000
 	}
 	e.aliases = nil
+	e.pendingUniq = nil
 	e.stack = e.stack[:0]
 	e.pcVars = nil
 	e.pcVarSet = map[*Term]bool{}
